@@ -74,6 +74,9 @@ func (c *Calcium) newWorkloadSender(ctx context.Context, ID string, resp chan *t
 				utils.SentryGo(func(ID, name string, size int64, content io.Reader, uid, gid int, mode int64) func() {
 					return func() {
 						defer wg.Done()
+						// whatever happened to the copy, nobody reads the pipe any more:
+						// make the writer fail instead of blocking for ever
+						defer pr.Close()
 						if err := sender.calcium.withWorkloadLocked(ctx, ID, false, func(ctx context.Context, workload *types.Workload) error {
 							err := errors.WithStack(workload.Engine.VirtualizationCopyChunkTo(ctx, ID, name, size, content, uid, gid, mode))
 							resp <- &types.SendMessage{ID: ID, Path: name, Error: err}
@@ -90,7 +93,12 @@ func (c *Calcium) newWorkloadSender(ctx context.Context, ID string, resp chan *t
 				break
 			}
 		}
-		writer.Close()
+		if writer != nil {
+			writer.Close()
+		}
+		// the feeder must never block on a sender that gave up
+		for range sender.buffer { //nolint:revive
+		}
 	})
 	return sender
 }
